@@ -90,4 +90,41 @@ def Stmt.line : Stmt → Nat
   | .expr e => e.line
   | .nil => 0
 
+/-- `SetCurrentLine` on an expression node (a nil interface would be a Go panic: modelled at the call site) -/
+def Expr.setLine (l : Nat) : Expr → Expr
+  | .id i => .id { i with line := l }
+  | .str _ s => .str l s
+  | .arr _ xs => .arr l xs
+  | .hm _ kvs => .hm l kvs
+  | .assign _ t e => .assign l t e
+  | .logic _ ty a b => .logic l ty a b
+  | .arith _ ty a b => .arith l ty a b
+  | .member _ rt r mt mid idx => .member l rt r mt mid idx
+  | .call _ n ps y => .call l n ps y
+  | .mcall _ r c y => .mcall l r c y
+  | .new _ c ps => .new l c ps
+  | .nil => .nil
+
+/-- `SetCurrentLine` on a statement node; an expression statement is the expression object itself -/
+def Stmt.setLine (l : Nat) : Stmt → Stmt
+  | .varDecl _ ps => .varDecl l ps
+  | .while _ c b => .while l c b
+  | .branch _ ie ib os he eb => .branch l ie ib os he eb
+  | .empty _ => .empty l
+  | .funcDecl _ n dt x => .funcDecl l n dt x
+  | .classDecl _ n ps ms gs => .classDecl l n ps ms gs
+  | .iterate _ e ns b => .iterate l e ns b
+  | .ret _ e => .ret l e
+  | .throw _ c ps => .throw l c ps
+  | .continue _ => .continue l
+  | .break _ => .break l
+  | .expr e => .expr (e.setLine l)
+  | .nil => .nil
+
+/-- Go's `exprL.(syntax.Assignable)`: `*ID` and `*MemberExpr` implement `assignable()` -/
+def Expr.isAssignable : Expr → Bool
+  | .id _ => true
+  | .member .. => true
+  | _ => false
+
 end ZnVerif.Model
